@@ -146,5 +146,25 @@ where
     }
 }
 
+/// Same through the instrumented (second) value source: the built-in error types see values only
+/// serde_json cannot hold (non-finite floats, duplicate keys, non-canonical numbers).
+pub fn run_ov_with<T, E>(p: &Ov) -> Result<Result<Proj, String>, String>
+where
+    T: Deserr<E> + ToProj,
+    E: DeserializeError + std::fmt::Display,
+{
+    install_hook();
+    let (inst, _) = instrument(p);
+    IN_RUN.with(|f| *f.borrow_mut() = true);
+    LAST_PANIC.with(|p| *p.borrow_mut() = None);
+    let r = catch_unwind(AssertUnwindSafe(move || deserr::deserialize::<T, OvI, E>(inst)));
+    IN_RUN.with(|f| *f.borrow_mut() = false);
+    match r {
+        Ok(Ok(v)) => Ok(Ok(v.to_proj())),
+        Ok(Err(e)) => Ok(Err(e.to_string())),
+        Err(_) => Err(LAST_PANIC.with(|p| p.borrow_mut().take()).unwrap_or_else(|| "panic".into())),
+    }
+}
+
 #[allow(unused)]
 fn _assert_into_value<T: IntoValue>() {}
